@@ -69,6 +69,12 @@ pub fn run(ctx: &Ctx) -> Report {
                 }
                 judge_guarded(judge, &case, &mut acc);
             }
+            // byte-lane walk around valid base encodings, both directions
+            for (v, tid) in values::lane_walk(*k, seed) {
+                let t = format!("{tid:x}");
+                judge_guarded(judge, &Case::new("decode", v.clone()).args(&[k.code() as i64]).text(&[k.name(), &t]), &mut acc);
+                judge_guarded(judge, &Case::new("encode", v).text(&[k.name(), &t]), &mut acc);
+            }
             acc
         })
         .reduce(Acc::default, |a, b| a.merge(b));
@@ -77,7 +83,7 @@ pub fn run(ctx: &Ctx) -> Report {
     Report {
         acc,
         exhaustive: true,
-        rule: "per attribute type: all values of length <= bound; lengths 0..=800 x content patterns (UTF-8 complete/cut/invalid); all 65536 ERROR-CODE class/number pairs x 8 reasons; all 256 family bytes x 7 lengths; algorithm word lists; every type code of the universe as wrong type; encode side over constructible values".into(),
+        rule: "per attribute type: all values of length <= bound; lengths 0..=800 x content patterns (UTF-8 complete/cut/invalid); all 65536 ERROR-CODE class/number pairs x 8 reasons; all 256 family bytes x 7 lengths; algorithm word lists; every type code of the universe as wrong type; encode side over constructible values; byte-lane walk (every byte position x all 256 values) around 2-8 valid base encodings per type, decode and encode side".into(),
         bounds: json!({"short_values_max_len": max_short, "kinds": 19, "pattern_lengths": "0..=800"}),
         assumptions: vec!["DON'T-CARE regions (DESIGN.md C08) are executed for panics only".into()],
         ..Default::default()
